@@ -99,3 +99,18 @@ def eval_inter(prop, fam, a, b, forms=('fn',), measures=False):
             viols.append(Viol('%s|%s|%s|%s|%s' % (prop, fam.split('/')[0], form, cell, why), sc, core.enc(e), lib.describe(r),
                               'intersection(%s, %s) [%s form] expected %s got %s' % (a[0], b[0], form, kind, lib.tname(r))))
     return cell, viols
+
+
+def safe_pose(pose, K):
+    """the pose, or the same linear map with a slightly different (still dyadic) translation if a
+    face-plane offset of pose(K) would fall on a hash rounding boundary (the whole body would be
+    rejected by the admission guard otherwise).  Decided on the model side."""
+    from .alphabet import Pose
+    from fractions import Fraction as F
+    if faces_hash_ok(pose(K)):
+        return pose
+    for i, dt in enumerate(((F(1, 2), 0, 0), (0, F(1, 4), F(1, 2)), (F(-1, 4), F(1, 2), F(1, 4)), (1, 1, F(-1, 2)), (F(3, 8), F(-5, 8), F(1, 8)))):
+        q = Pose('%s~%d' % (pose.name, i), pose.M, pose.s, tuple(pose.t[k] + dt[k] for k in range(3)))
+        if faces_hash_ok(q(K)):
+            return q
+    return pose
